@@ -12,29 +12,34 @@ Section Refine.
   Variables decide decide' : Z -> Z -> Z -> option action.
   Hypothesis refines : forall s e r a, decide' s e r = Some a -> decide s e r = Some a.
 
+  Definition go_gen (d : Z -> Z -> Z -> option action) (f : nat) (shift : Z) (se : Z * Z) : option (list cell) :=
+    match d (fst se) (snd se) shift with
+    | Some (Emit b) => Some [ {| c_start := fst se; c_res := shift; c_on_boundary := b |} ]
+    | Some Recurse => if shift <=? 0 then None else compute_gen d f (fst se) (shift - 1)
+    | Some Drop => Some []
+    | None => None
+    end.
+
+  Lemma compute_gen_S d f term shift :
+    compute_gen d (S f) term shift =
+    match go_gen d f shift (fst (children term shift)), go_gen d f shift (snd (children term shift)) with
+    | Some a, Some b => Some (a ++ b)
+    | _, _ => None
+    end.
+  Proof. reflexivity. Qed.
+
   Lemma compute_gen_refines : forall fuel term shift cs,
     compute_gen decide' fuel term shift = Some cs -> compute_gen decide fuel term shift = Some cs.
   Proof.
     induction fuel as [|f IH]; intros term shift cs H; [discriminate|].
-    cbn [compute_gen] in *.
-    assert (Hgo : forall se l,
-      match decide' (fst se) (snd se) shift with
-      | Some (Emit b) => Some [ {| c_start := fst se; c_res := shift; c_on_boundary := b |} ]
-      | Some Recurse => if shift <=? 0 then None else compute_gen decide' f (fst se) (shift - 1)
-      | Some Drop => Some []
-      | None => None
-      end = Some l ->
-      match decide (fst se) (snd se) shift with
-      | Some (Emit b) => Some [ {| c_start := fst se; c_res := shift; c_on_boundary := b |} ]
-      | Some Recurse => if shift <=? 0 then None else compute_gen decide f (fst se) (shift - 1)
-      | Some Drop => Some []
-      | None => None
-      end = Some l).
-    { intros se l Hl. destruct (decide' (fst se) (snd se) shift) as [a|] eqn:E; [|discriminate].
+    rewrite compute_gen_S in *.
+    assert (Hgo : forall se l, go_gen decide' f shift se = Some l -> go_gen decide f shift se = Some l).
+    { intros se l Hl. unfold go_gen in *.
+      destruct (decide' (fst se) (snd se) shift) as [a|] eqn:E; [|discriminate].
       rewrite (refines _ _ _ _ E). destruct a; auto.
       destruct (shift <=? 0); [discriminate|]. apply IH. exact Hl. }
-    destruct (match decide' (fst (fst (children term shift))) _ _ with _ => _ end) as [a|] eqn:Ea; [|discriminate].
-    destruct (match decide' (fst (snd (children term shift))) _ _ with _ => _ end) as [b|] eqn:Eb; [|discriminate].
+    destruct (go_gen decide' f shift (fst (children term shift))) as [a|] eqn:Ea; [|discriminate].
+    destruct (go_gen decide' f shift (snd (children term shift))) as [b|] eqn:Eb; [|discriminate].
     rewrite (Hgo _ _ Ea), (Hgo _ _ Eb). exact H.
   Qed.
 
@@ -75,7 +80,6 @@ Qed.
 
 Section WalkMatch.
   Variables (k : Z) (q : rect) (cb filt : bool) (cs : list cell).
-  Hypothesis Hk : 0 <= k.
   Hypothesis Hcs : compute_geo_range_top (lon_S k) (lat_S k) q cb = Some cs.
 
   Lemma walk_point_match h : 0 <= h < 2 ^ 64 ->
@@ -84,8 +88,7 @@ Section WalkMatch.
       match o with Some c => negb (c_on_boundary c) || filt | None => false end.
   Proof.
     intros Hh.
-    destruct (point_walk_spec (lon_S k) (lat_S k) q cb (fun x y => lon_S_mono k x y Hk)
-                (fun x y => lat_S_mono k x y Hk) cs h Hcs Hh) as (o & Ho & Hiff).
+    destruct (point_walk_spec (lon_S k) (lat_S k) q cb cs h Hcs Hh) as (o & Ho & Hiff).
     exists o. split; [exact Ho|].
     destruct o as [c|].
     - destruct (proj1 (Hiff c) eq_refl) as [Hin Hcov].
@@ -100,21 +103,29 @@ Section WalkMatch.
       assert (None = Some c') as Heq by (apply Hiff; split; assumption). discriminate.
   Qed.
 
-  Theorem box_doc_match_walk_eq vals : Forall (fun h => 0 <= h < 2 ^ 64) vals ->
-    box_doc_match_walk k q cb filt vals = Some (box_doc_match cs filt vals).
-  Proof.
-    intros Hall. unfold box_doc_match_walk, box_doc_match.
-    assert (G : forall acc, fold_left (fun acc h =>
-        match acc, point_walk_top (lon_S k) (lat_S k) q cb h with
+  Lemma fold_match (pw : Z -> option (option cell)) (E : Z -> bool) vals :
+    (forall h, In h vals -> exists o, pw h = Some o /\
+        E h = match o with Some c => negb (c_on_boundary c) || filt | None => false end) ->
+    forall acc, fold_left (fun acc h =>
+        match acc, pw h with
         | Some a, Some (Some c) => Some (a || (negb (c_on_boundary c) || filt))
         | Some a, Some None => Some a
         | _, _ => None
-        end) vals (Some acc) =
-      Some (acc || existsb (fun h => existsb (fun c => covers c h && (negb (c_on_boundary c) || filt)) cs) vals)).
-    { induction Hall as [|h l Hh Hl IH]; intros acc; cbn [fold_left existsb].
-      - rewrite orb_false_r. reflexivity.
-      - destruct (walk_point_match h Hh) as (o & Ho & He). rewrite Ho, He.
-        destruct o as [c|]; rewrite IH; f_equal; [rewrite orb_assoc; reflexivity|reflexivity]. }
-    rewrite G. reflexivity.
+        end) vals (Some acc) = Some (acc || existsb E vals).
+  Proof.
+    induction vals as [|h l IH]; intros Hall acc; cbn [fold_left existsb].
+    - rewrite orb_false_r. reflexivity.
+    - destruct (Hall h (or_introl eq_refl)) as (o & Ho & He). rewrite Ho, He.
+      destruct o as [c|]; rewrite IH by (intros; apply Hall; right; assumption);
+        [rewrite !orb_assoc|]; reflexivity.
+  Qed.
+
+  Theorem box_doc_match_walk_eq vals : Forall (fun h => 0 <= h < 2 ^ 64) vals ->
+    box_doc_match_walk k q cb filt vals = Some (box_doc_match cs filt vals).
+  Proof.
+    intros Hall.
+    exact (fold_match (point_walk_top (lon_S k) (lat_S k) q cb)
+             (fun h => existsb (fun c => covers c h && (negb (c_on_boundary c) || filt)) cs) vals
+             (fun h Hin => walk_point_match h (proj1 (Forall_forall _ _) Hall h Hin)) false).
   Qed.
 End WalkMatch.
